@@ -34,11 +34,12 @@ Fixpoint subst (c : frame) (e : term) : term :=
 
 (* values that evaluate to themselves under eval and under call *)
 Definition self_eval (v : term) : bool :=
-  match v with TInt _ | TStr _ | TChar _ | TArr _ | TNone => true | _ => false end.
+  match v with TInt _ | TReal _ | TStr _ | TChar _ | TArr _ | TNone => true | _ => false end.
 
 (* the closed expression grammar of T3.subst: x y z, globals, literals, the pure verbs, conditionals *)
 Inductive pure : term -> Prop :=
 | pure_int z : pure (TInt z)
+| pure_real r : pure (TReal r)
 | pure_str s : pure (TStr s)
 | pure_chr c : pure (TChar c)
 | pure_arr l : pure (TArr l)
@@ -51,6 +52,7 @@ Inductive pure : term -> Prop :=
    x y z, which evaluates to itself without being bound); .f is not mentioned *)
 Inductive names_bound (c : frame) (fr : list frame) : term -> Prop :=
 | nb_int z : names_bound c fr (TInt z)
+| nb_real r : names_bound c fr (TReal r)
 | nb_str s : names_bound c fr (TStr s)
 | nb_chr ch : names_bound c fr (TChar ch)
 | nb_arr l : names_bound c fr (TArr l)
